@@ -18,4 +18,15 @@ theorem patterns_pinned :
        "NESTED_COMBINATIONS_TERMINATED", "COMPONENT_PAIR_COMBINATIONS"] := by decide
 
 
+/-- the complete list of calls in the conversion packages that end the process (`log.Fatal`,
+    `os.Exit`) or unwind the stack (`panic`): twelve `log.Fatal` guards on states the callers
+    exclude (the correspondence run shows none is reached by generated input); a new call, or a
+    guard that disappears, breaks this obligation -/
+theorem fatal_sites_accounted :
+    Gen.fatalCallSites =
+      [("parser.extractSuffixAndAnnotations", "log.Fatal"), ("tree.Combine", "log.Fatal")] ++
+      List.replicate 7 ("tree.ComponentNode", "log.Fatal") ++
+      [("tree.GenerateLogicalOperatorLinkagePerCombination", "log.Fatal"), ("tree.Node.StringFlat", "log.Fatal"),
+       ("tree.Statement.Stringify", "log.Fatal")] := by decide
+
 end IGVerif.C10
